@@ -79,6 +79,7 @@ class Walker:
         self.profile = dict(plans=True, utility=True, payload=self.cfg["payload"] != "void", hooks=2,
                             overflow=True, cancel=True, react=True, serial=True, fills=True, quiet=0.15)
         self.stash = []          # saved buffers (lists of bytes), shared by all episodes of this walker
+        self.profile.update(fx.get("profile", {}))
         self.profile.update(profile or {})
         fl = self.fl
         self.regions = [s for s in range(1, fl.n + 1) if fl.st(s)["kind"] != "S"]
@@ -110,8 +111,10 @@ class Walker:
             d = self.rnd.choice(inside if self.rnd.random() < 0.8 else list(range(1, self.fl.n + 1)))
             k = self.rnd.choice(self.kinds + ["schedule"])
             return "plan_append:%d:%d:%d:%s:%d" % (r, o, d, k, self.payload())
-        if c < 0.85:
+        if c < 0.80:
             return "plan_clear:%d" % r
+        if c < 0.90:
+            return "plan_sweep:%d:%d" % (r, self.rnd.choice([0, 1, 2, 3, 5, 6, 7, self.rnd.randint(0, 63)]))
         return "plan_remove:%d:%d" % (r, self.rnd.randint(1, 3))
 
     def rets(self):
@@ -261,6 +264,8 @@ class Walker:
             else:
                 c = rnd.random()
                 room = qlen < fl.cc or self.profile["overflow"]
+                if self.profile["plans"] and rnd.random() < self.profile.get("planheavy", 0.0):
+                    c = 0.90        # a plan edit from outside
                 if self.profile["serial"] and c < 0.05:
                     rec = call([], "save")
                     if rec and rec["buf"] not in self.stash:
@@ -287,7 +292,7 @@ class Walker:
                     rec = call([], "%s %d" % (rnd.choice(["succeed", "succeed", "fail"]), t))
                 elif c < 0.94 and self.profile["plans"]:
                     op = self.plan_op().split(":")
-                    rec = call([], {"plan_append": "pa", "plan_clear": "pc", "plan_remove": "pr"}[op[0]] + " " + " ".join(op[1:]))
+                    rec = call([], {"plan_append": "pa", "plan_clear": "pc", "plan_remove": "pr", "plan_sweep": "ps"}[op[0]] + " " + " ".join(op[1:]))
                 elif c < 0.97:
                     rec = call(self.rets() + self.hooks("reset", active, qlen), "reset")
                 elif manual:
